@@ -146,6 +146,8 @@ where
         infer: bool,
     ) -> Option<Result<Box<dyn DynModel>, ()>>;
     fn fast_nclookup<const P: usize>(syms: &[usize], n: usize) -> Option<Result<Box<dyn DynModel>, ()>>;
+    fn adv_borrow<const P: usize>(kind: &str, syms: &[usize], first: &[u128], later: &[u128], infer: bool) -> Built;
+    fn adv_hint<const P: usize>(kind: &str, syms: &[usize], probs: &[u128], infer: bool, lo: usize, hi: Option<usize>) -> Built;
 }
 
 // ---- wrappers -------------------------------------------------------------------------
@@ -328,6 +330,128 @@ struct NcLookupAsNcW<Pr: BitArray, const P: usize> {
     m: NonContiguousLookupDecoderModel<usize, Pr, Vec<(Pr, usize)>, Box<[Pr]>, P>,
 }
 
+/// probability item with an unstable (but perfectly safe) `Borrow` impl: the first call
+/// answers `first`, every later call `later`
+pub struct Flaky<Pr> {
+    first: Pr,
+    later: Pr,
+    calls: std::cell::Cell<usize>,
+}
+
+impl<Pr> Flaky<Pr> {
+    fn new(first: Pr, later: Pr) -> Self {
+        Flaky { first, later, calls: std::cell::Cell::new(0) }
+    }
+    fn get(&self) -> &Pr {
+        let n = self.calls.get();
+        self.calls.set(n + 1);
+        if n == 0 {
+            &self.first
+        } else {
+            &self.later
+        }
+    }
+}
+
+macro_rules! impl_flaky_borrow {
+    ($($Pr:ty),*) => {$(
+        impl std::borrow::Borrow<$Pr> for Flaky<$Pr> {
+            fn borrow(&self) -> &$Pr {
+                self.get()
+            }
+        }
+    )*};
+}
+impl_flaky_borrow!(u8, u16, u32, u64);
+
+/// symbol iterator whose `size_hint` is whatever the test says
+pub struct HintIter {
+    inner: std::vec::IntoIter<usize>,
+    lo: usize,
+    hi: Option<usize>,
+}
+
+impl Iterator for HintIter {
+    type Item = usize;
+    fn next(&mut self) -> Option<usize> {
+        self.inner.next()
+    }
+    fn size_hint(&self) -> (usize, Option<usize>) {
+        (self.lo, self.hi)
+    }
+}
+
+macro_rules! adv_borrow_impl {
+    ($Pr:ty, $P:ident, $lookup:tt, $kind:expr, $syms:expr, $first:expr, $later:expr, $infer:expr) => {{
+        let items = || -> Vec<Flaky<$Pr>> {
+            $first.iter().zip($later.iter()).map(|(&a, &b)| Flaky::new(from_u128::<$Pr>(a), from_u128::<$Pr>(b))).collect()
+        };
+        match $kind {
+            "contig" => wrap(
+                ContiguousCategoricalEntropyModel::<$Pr, Vec<$Pr>, $P>::from_nonzero_fixed_point_probabilities(items(), $infer)
+                    .map(|m| ContigW::<$Pr, $P> { m, view: false }),
+            ),
+            "ncdec" => wrap(
+                NonContiguousCategoricalDecoderModel::<usize, $Pr, Vec<($Pr, usize)>, $P>::from_symbols_and_nonzero_fixed_point_probabilities($syms.iter().copied(), items(), $infer)
+                    .map(|m| NcDecW::<$Pr, $P> { m, view: false }),
+            ),
+            "ncenc" => wrap(
+                NonContiguousCategoricalEncoderModel::<usize, $Pr, $P>::from_symbols_and_nonzero_fixed_point_probabilities($syms.iter().copied(), items(), $infer)
+                    .map(|m| NcEncW::<$Pr, $P> { m }),
+            ),
+            "lookup" => adv_borrow_impl!(@lookup $lookup, $Pr, $P, items(), $infer),
+            "nclookup" => adv_borrow_impl!(@nclookup $lookup, $Pr, $P, $syms, items(), $infer),
+            _ => Built::Unsupported,
+        }
+    }};
+    (@lookup true, $Pr:ty, $P:ident, $items:expr, $infer:expr) => {
+        wrap(
+            ContiguousLookupDecoderModel::<$Pr, Vec<$Pr>, Box<[$Pr]>, $P>::from_nonzero_fixed_point_probabilities($items, $infer)
+                .map(|m| LookupW::<$Pr, $P> { m, view: false }),
+        )
+    };
+    (@lookup false, $Pr:ty, $P:ident, $items:expr, $infer:expr) => {
+        Built::Unsupported
+    };
+    (@nclookup true, $Pr:ty, $P:ident, $syms:expr, $items:expr, $infer:expr) => {
+        wrap(
+            NonContiguousLookupDecoderModel::<usize, $Pr, Vec<($Pr, usize)>, Box<[$Pr]>, $P>::from_symbols_and_nonzero_fixed_point_probabilities($syms.iter().copied(), $items, $infer)
+                .map(|m| NcLookupW::<$Pr, $P> { m, view: false }),
+        )
+    };
+    (@nclookup false, $Pr:ty, $P:ident, $syms:expr, $items:expr, $infer:expr) => {
+        Built::Unsupported
+    };
+}
+
+macro_rules! adv_hint_impl {
+    ($Pr:ty, $P:ident, $lookup:tt, $kind:expr, $syms:expr, $probs:expr, $infer:expr, $lo:expr, $hi:expr) => {{
+        let it = || HintIter { inner: $syms.to_vec().into_iter(), lo: $lo, hi: $hi };
+        let ps: Vec<$Pr> = $probs.iter().map(|&q| from_u128::<$Pr>(q)).collect();
+        match $kind {
+            "ncdec" => wrap(
+                NonContiguousCategoricalDecoderModel::<usize, $Pr, Vec<($Pr, usize)>, $P>::from_symbols_and_nonzero_fixed_point_probabilities(it(), ps.iter(), $infer)
+                    .map(|m| NcDecW::<$Pr, $P> { m, view: false }),
+            ),
+            "ncenc" => wrap(
+                NonContiguousCategoricalEncoderModel::<usize, $Pr, $P>::from_symbols_and_nonzero_fixed_point_probabilities(it(), ps.iter(), $infer)
+                    .map(|m| NcEncW::<$Pr, $P> { m }),
+            ),
+            "nclookup" => adv_hint_impl!(@nclookup $lookup, $Pr, $P, it(), ps, $infer),
+            _ => Built::Unsupported,
+        }
+    }};
+    (@nclookup true, $Pr:ty, $P:ident, $it:expr, $ps:expr, $infer:expr) => {
+        wrap(
+            NonContiguousLookupDecoderModel::<usize, $Pr, Vec<($Pr, usize)>, Box<[$Pr]>, $P>::from_symbols_and_nonzero_fixed_point_probabilities($it, $ps.iter(), $infer)
+                .map(|m| NcLookupW::<$Pr, $P> { m, view: false }),
+        )
+    };
+    (@nclookup false, $Pr:ty, $P:ident, $it:expr, $ps:expr, $infer:expr) => {
+        Built::Unsupported
+    };
+}
+
 macro_rules! impl_lookup_wrappers {
     ($Pr:ty) => {
         impl<const P: usize> DynModel for LookupW<$Pr, P> {
@@ -486,6 +610,12 @@ macro_rules! impl_lookup_wrappers {
                     .map(|m| Box::new(NcLookupW::<$Pr, P> { m, view: false }) as Box<dyn DynModel>),
                 )
             }
+            fn adv_borrow<const P: usize>(kind: &str, syms: &[usize], first: &[u128], later: &[u128], infer: bool) -> Built {
+                adv_borrow_impl!($Pr, P, true, kind, syms, first, later, infer)
+            }
+            fn adv_hint<const P: usize>(kind: &str, syms: &[usize], probs: &[u128], infer: bool, lo: usize, hi: Option<usize>) -> Built {
+                adv_hint_impl!($Pr, P, true, kind, syms, probs, infer, lo, hi)
+            }
         }
     };
 }
@@ -524,6 +654,13 @@ impl Prob for $Pr {
     fn fast_nclookup<const P: usize>(_syms: &[usize], _n: usize) -> Option<Result<Box<dyn DynModel>, ()>> {
         None
     }
+            fn adv_borrow<const P: usize>(kind: &str, syms: &[usize], first: &[u128], later: &[u128], infer: bool) -> Built {
+                adv_borrow_impl!($Pr, P, false, kind, syms, first, later, infer)
+            }
+            fn adv_hint<const P: usize>(kind: &str, syms: &[usize], probs: &[u128], infer: bool, lo: usize, hi: Option<usize>) -> Built {
+                adv_hint_impl!($Pr, P, false, kind, syms, probs, infer, lo, hi)
+            }
+
 }
 
     };
@@ -543,6 +680,14 @@ pub enum Ctor {
     NcLookup { syms: Vec<usize>, probs: Vec<u128>, infer: bool },
     Uniform { range: usize },
     Fast { kind: String, n: usize, syms: Vec<usize> },
+    /// `from_iterable_entropy_model` / `to_generic_*` of an `IterableEntropyModel` whose
+    /// `symbol_table()` is exactly `table` (valid or not); target ∈ dec enc lookup gdec genc
+    FromTable { target: String, table: Vec<(usize, u128, u128)> },
+    /// fixed-point constructor `kind` whose probability items have an unstable `Borrow` impl:
+    /// item `i` answers `first[i]` to the first `borrow()` and `later[i]` afterwards
+    AdvBorrow { kind: String, syms: Vec<usize>, first: Vec<u128>, later: Vec<u128>, infer: bool },
+    /// non-contiguous constructor `kind` with a symbol iterator whose `size_hint` is `(lo, hi)`
+    AdvHint { kind: String, syms: Vec<usize>, probs: Vec<u128>, infer: bool, lo: usize, hi: Option<usize> },
 }
 
 pub enum Built {
@@ -617,6 +762,9 @@ where
                 _ => opt_built(Pr::fast_nclookup::<P>(syms, *n)),
             }
         }
+        Ctor::FromTable { target, table } => adv_from_table::<Pr, P>(target, table),
+        Ctor::AdvBorrow { kind, syms, first, later, infer } => Pr::adv_borrow::<P>(kind, syms, first, later, *infer),
+        Ctor::AdvHint { kind, syms, probs, infer, lo, hi } => Pr::adv_hint::<P>(kind, syms, probs, *infer, *lo, *hi),
     }
 }
 
@@ -865,6 +1013,18 @@ fn run_hist(b: u32, p: u32, c: &Ctor, ops: &[Vec<&str>]) -> String {
     };
     let mut outs = vec!["ok".to_string()];
     for seg in ops {
+        if let ["audit", syms] = seg.as_slice() {
+            // harness-only op (never generated for the correspondence)
+            let syms = match parse_list(syms) {
+                Some(l) => usizes(l),
+                None => {
+                    outs.push("bad-op".into());
+                    break;
+                }
+            };
+            outs.push(audit(m.as_ref(), b, p, &syms));
+            continue;
+        }
         match do_op(&mut m, seg) {
             Ok(Some(s)) => outs.push(s),
             Ok(None) => {
@@ -1004,7 +1164,11 @@ pub fn run(segs: &[Vec<&str>]) -> String {
             f().unwrap_or("bad-op".into())
         }
         _ => {
-            let parsed = if head.first() == Some(&"cat.fast") { parse_fast(head) } else { parse_ctor(head) };
+            let parsed = match head.first() {
+                Some(&"cat.fast") => parse_fast(head),
+                Some(&"cat.fromtable") | Some(&"cat.adv.borrow") | Some(&"cat.adv.hint") => parse_adv(head),
+                _ => parse_ctor(head),
+            };
             match parsed {
                 None => "bad-op".into(),
                 Some((b, p, c)) => run_hist(b, p, &c, &segs[1..]),
@@ -1016,3 +1180,4 @@ pub fn run(segs: &[Vec<&str>]) -> String {
 include!("cat_gen.rs");
 include!("cat_oracle.rs");
 include!("cat_alias.rs");
+include!("cat_adv.rs");
